@@ -1028,16 +1028,42 @@ func c09SplitClamp(c *Ctx) {
 // datagrams whose size the plan does not pin.
 func c10TokenAndPadding(c *Ctx) {
 	const R = "C10.8"
-	tl := c.fn("", "InitialPacketSpec", "tokenLength")
 	ctl := c.fld("", "InitialPacketSpec", "ClientTokenLength")
 	ctp := c.fld("", "InitialPacketSpec", "ClientTokenPrefix")
-	ok := false
-	eachInstr(tl, func(in ssa.Instruction) {
-		if r, isR := in.(*ssa.Return); isR && MinMaxOf("max", Load(ctl), LenOf(Load(ctp)))(retResults(r)[0]) {
-			ok = true
+	// wherever the spec's token length is read (outside UpdateConfig's presence test), it is max'ed with the prefix length
+	nUse, nOK := 0, 0
+	for _, g := range c.P.ScopeFuncs() {
+		if funcPkgPath(g) != modPath {
+			continue
 		}
-	})
-	c.Check(ok, R, "shape:tokenLength=max(ClientTokenLength, len(ClientTokenPrefix))", c.P.Pos(tl.Pos()), "a token shorter than its prefix would be the truncated prefix: fixed bytes, identical on every dial")
+		eachInstr(g, func(in ssa.Instruction) {
+			u, isU := in.(*ssa.UnOp)
+			if !isU || !Load(ctl)(u) || u.Referrers() == nil {
+				return
+			}
+			for _, r := range *u.Referrers() {
+				switch x := r.(type) {
+				case *ssa.BinOp:
+					// comparisons (is a token configured at all?) are not size uses
+					if isCmp(x.Op) {
+						continue
+					}
+					nUse++
+				case *ssa.Call:
+					nUse++
+					if MinMaxOf("max", Load(ctl), LenOf(Load(ctp)))(x) {
+						nOK++
+					}
+				default:
+					if _, isIf := r.(*ssa.If); !isIf {
+						nUse++
+					}
+				}
+			}
+		})
+	}
+	c.Check(nUse >= 1 && nUse == nOK, R, "shape:token size = max(ClientTokenLength, len(ClientTokenPrefix))", "-",
+		fmt.Sprintf("a token shorter than its prefix would be the truncated prefix: fixed bytes, identical on every dial (%d size uses of ClientTokenLength, %d inside max(·, len(prefix)))", nUse, nOK))
 	f := c.fn("", "uPacketPacker", "appendInitialPacketPayload")
 	minSize := c.fld("", "QUICSpec", "UDPDatagramMinSize")
 	psz := c.fld("", "InitialPacketPlan", "PacketSize")
